@@ -90,7 +90,7 @@ InvA ==
 
 M == 32749
 Mix(a, b) == ((a % M) * 1103 + (b % M) * 2221 + 977) % M
-Sq(x) == (x * x + 5) % M
+Sq(x) == ((x % M) * (x % M) + 5) % M
 Rnd(a, b, d) == Sq(Sq(Mix(Mix(a, b), d)) + (d % M))
 R1(k, what) == Rnd(GenSeed, k, what)             \* per-case pseudo-random numbers
 
@@ -218,6 +218,93 @@ InvB ==
            /\ \A s \in DOMAIN x.proposers : IsActive(vals[x.proposers[s] + 1], EpochB(c))
            /\ Len(x.sync) = x.P.SYNC_COMMITTEE_SIZE
            /\ \A j \in DOMAIN x.sync : IsActive(vals[x.sync[j] + 1], EpochB(c) + 1)
+           /\ (Emit => PrintT(<< "CASE", ToJson(x) >>))
+
+(******************************** part C ***********************************)
+(* Long rejection runs (INIT InitC / NEXT NextC): small registries (5..7 validators, none with the full balance)    *)
+(* whose first K sampling bytes are 255 -- rejected by every balance below MAX_EFFECTIVE_BALANCE -- followed by      *)
+(* zeros (accepted by everybody), for K = 33, 40, 65: the proposer of every slot and the sync committee are found  *)
+(* only after K rejected candidates, i.e. the candidate counter runs past the first and the second 32-byte block   *)
+(* of sampling bytes and wraps around the registry many times.                                                     *)
+
+PresetC(k) ==
+    [SLOTS_PER_EPOCH |-> 2 + (k % 2), MAX_COMMITTEES_PER_SLOT |-> 2, TARGET_COMMITTEE_SIZE |-> 1,
+     SHUFFLE_ROUND_COUNT |-> 1 + (R1(k, 5) % 2), MAX_EFFECTIVE_BALANCE |-> 32000, SYNC_COMMITTEE_SIZE |-> 4,
+     EPOCHS_PER_HISTORICAL_VECTOR |-> 8, MIN_SEED_LOOKAHEAD |-> 1, EPOCHS_PER_SYNC_COMMITTEE_PERIOD |-> 2,
+     EFFECTIVE_BALANCE_INCREMENT |-> 1000]
+
+EpochC(k) == 2 + (R1(k, 8) % 3)
+ValsC(k, nv) ==
+    [i1 \in 1 .. nv |-> [act |-> 0, exit |-> FAR,
+                          eff |-> << 31000, 16000, 1000, 24000, 8000, 30000, 2000 >>[((i1 + R1(k, 9)) % 7) + 1]]]
+
+BlocksC(seed, nblocks, K) ==
+    [b \in 1 .. nblocks |->
+        << RandomBytePre(seed, (b - 1) * 32),
+           [j \in 1 .. 32 |-> IF (b - 1) * 32 + (j - 1) < K THEN 255 ELSE 0] >>]
+
+\* like ShuffleEntries, for the presets of part C
+ShuffleEntriesC(k, what, n, seed) ==
+    LET R == PresetC(k).SHUFFLE_ROUND_COUNT
+        piv == [r \in 0 .. R - 1 |-> Rnd(GenSeed + what, k, 300 + r) % n]
+        bit == [r \in 0 .. R - 1 |-> [pos \in 0 .. n - 1 |-> Rnd(GenSeed + what, k * 7 + r, pos) % 2]]
+    IN OracleEntries(n, R, seed, piv, bit, what + k)
+
+TableC(k, nv, K) ==
+    LET P == PresetC(k)
+        mixes == MixesB(k)
+        e == EpochC(k)
+        es == << e - 1, e, e + 1 >>
+        att(j) == << << SeedPre(P, mixes, es[j], DOMAIN_BEACON_ATTESTER), SeedDigest(k, j) >> >>
+                  \o ShuffleEntriesC(k, j, nv, SeedDigest(k, j))
+        propEpochSeed == SeedDigest(k, 4)
+        slotSeed(s) == SeedDigest(k, 10 + s)
+        nb == (K \div 32) + 2
+        prop(s) == << << propEpochSeed \o LEBytes(e * P.SLOTS_PER_EPOCH + s, 8), slotSeed(s) >> >>
+                   \o ShuffleEntriesC(k, 10 + s, nv, slotSeed(s)) \o BlocksC(slotSeed(s), nb, K)
+        RECURSIVE props(_)
+        props(s) == IF s >= P.SLOTS_PER_EPOCH THEN << >> ELSE prop(s) \o props(s + 1)
+        syncSeed == SeedDigest(k, 5)
+    IN att(1) \o att(2) \o att(3)
+       \o << << SeedPre(P, mixes, e, DOMAIN_BEACON_PROPOSER), propEpochSeed >> >> \o props(0)
+       \o << << SeedPre(P, mixes, e + 1, DOMAIN_SYNC_COMMITTEE), syncSeed >> >>
+       \o ShuffleEntriesC(k, 5, nv, syncSeed) \o BlocksC(syncSeed, nb, K)
+
+InitC == c = 0 /\ st = << >>
+NextC ==
+    /\ c = 0
+    /\ c' \in 1 .. NCases
+    /\ \E K \in {33, 40, 65}, nv \in 5 .. 7 : st' = << K, nv >>
+
+ExpectedC(k, K, nv) ==
+    LET P == PresetC(k)
+        vals == ValsC(k, nv)
+        mixes == MixesB(k)
+        tbl == TableC(k, nv, K)
+        HT == TableOf(tbl)
+        e == EpochC(k)
+        es == << e - 1, e, e + 1 >>
+        props == EpochProposers(P, vals, mixes, HT, e)
+        sync == SyncCommitteeIndices(P, vals, mixes, HT, e + 1)
+    IN [tag |-> 2 * (k * 1000 + K * 10 + nv) + (nv % 2), P |-> P, epoch |-> e,
+        vals |-> [i1 \in 1 .. nv |-> << vals[i1].act, vals[i1].exit, vals[i1].eff >>],
+        mixes |-> mixes, table |-> tbl,
+        counts |-> [j \in 1 .. 3 |-> CommitteeCountPerSlot(P, nv)],
+        comms |-> [j \in 1 .. 3 |-> EpochCommittees(P, vals, mixes, HT, es[j])],
+        proposers |-> [s \in 1 .. P.SLOTS_PER_EPOCH |-> props[s].index],
+        sync |-> sync.indices,
+        focus |-> [b1 |-> 255, b2 |-> 255, rejected |-> K,
+                   propIters |-> [s \in 1 .. P.SLOTS_PER_EPOCH |-> props[s].iters], syncIters |-> sync.iters]]
+
+InvC ==
+    c > 0 =>
+        LET x == ExpectedC(c, st[1], st[2])
+        IN /\ Cardinality({x.table[j][1] : j \in DOMAIN x.table}) = Len(x.table)
+           \* exactly K candidates are rejected before the first acceptance
+           /\ \A s \in DOMAIN x.focus.propIters : x.focus.propIters[s] = st[1] + 1
+           /\ x.focus.syncIters = st[1] + x.P.SYNC_COMMITTEE_SIZE
+           /\ Len(x.sync) = x.P.SYNC_COMMITTEE_SIZE
+           /\ \A j \in 1 .. 3 : PartitionOK(x.P, x.comms[j], ActiveIdx(ValsC(c, st[2]), EpochC(c)))
            /\ (Emit => PrintT(<< "CASE", ToJson(x) >>))
 
 =============================================================================
